@@ -54,7 +54,14 @@ def gen_desc(seed, tier):
         k = r.choice([1, n, m, n * m])
         modes = [rm() for _ in range(k)]
         modes[r.randrange(k)] = r.choice(["bogus", "Serial", "", "processes", "threads"])
+    # foreign-party fault: one objective evaluation fails, with whatever exception type user code may raise
+    rf = random.Random(H(seed, "c20-raise"))
+    raise_faults = []
+    if rf.random() < 0.15 and shape != "invalid":
+        raise_faults = [{"kind": "objective_raise", "at": rf.randrange(1, 1 + 4 * n * m * 3),
+                         "exc": rf.choice(faults_mod.EXC_TYPES + ["RuntimeError"])}]
     return {
+        "raise_faults": raise_faults,
         "kind": "C20", "seed": seed, "n": n, "m": m, "shape": shape, "modes": modes,
         "n_trials": r.choice([1, 2, 2, 3]), "n_jobs": r.choice([1, 2, 3, 4]), "n_workers": r.choice([None, 1, 2, 3]),
         "cpu_count": r.choice([2, 3, 4, 8, 16, 64]),
@@ -107,7 +114,7 @@ def execute(desc):
     modes = tuple(desc["modes"]) if desc["modes"] is not None else None
     invalid = desc["modes"] is not None and any(x not in MODES for x in desc["modes"])
     sim = kernel.Sim(desc["seed"], sched=desc.get("sched"), step_cap=4_000_000)
-    fp = faults_mod.FaultPlan(desc.get("faults"))
+    fp = faults_mod.FaultPlan((desc.get("faults") or []) + (desc.get("raise_faults") or []))
     sim.fault_plan = fp
     fp.setup(sim)
     sim.obs["cpu_count"] = desc["cpu_count"]
@@ -143,6 +150,10 @@ def execute(desc):
                     except BaseException:
                         pass
             sim.obs["party_runs"] = []
+            if desc.get("raise_faults"):
+                # the failing evaluation is counted from the start of execute()
+                fp.raise_at = [nobj[0] + f["at"] for f in desc["raise_faults"]]
+                fp.raise_exc = {nobj[0] + f["at"]: f.get("exc") for f in desc["raise_faults"]}
             try:
                 mt = pv.Multitask(algorithms=algos, tasks=tsk, modes=modes, n_workers=desc["n_workers"])
             except kernel.SimAbort:
@@ -200,6 +211,25 @@ def execute(desc):
         add(f"shape_rejected:{desc['shape']}",
             f"Multitask(n={n} algorithms, m={m} tasks, modes={desc['modes']}) raised {type(ctor_exc).__name__}: "
             f"{str(ctor_exc)[:160]}")
+        return out, stats
+    fault_fired = sim.counters.get("fault_fired:objective_raise", 0) > 0
+    stats["objective_fault_fired"] = int(fault_fired)
+    if fault_fired:
+        # a failing objective: whether execute() raises or not, every run that was started must have been started in
+        # its designated mode (a fallback to another mode after a failure is not the designated mode)
+        readings = designated(desc)
+        got = {}
+        for r in runs:
+            got.setdefault((r["algorithm"], r["task"]), []).append(r)
+        if readings and not any(all(all(r["mode"] == rd[i][j] for r in got.get((ALGOS[i], TASKS[j]), []))
+                                    for i in range(n) for j in range(m)) for rd in readings):
+            seen = {f"{ALGOS[i]}x{TASKS[j]}": sorted({r["mode"] for r in got.get((ALGOS[i], TASKS[j]), [])})
+                    for i in range(n) for j in range(m)}
+            add("wrong_mode", f"modes={desc['modes']} ({desc['shape']}, n={n}, m={m}); after objective evaluation "
+                              f"#{desc['raise_faults'][0]['at']} failed with {desc['raise_faults'][0].get('exc')} the pairs "
+                              f"ran as {seen}")
+        if exec_exc is not None and not faults_mod.is_injected(exec_exc):
+            stats["probe_other_exception_after_objective_fault"] = 1
         return out, stats
     if exec_exc is not None:
         add(f"execute_raised:{desc['shape']}:{type(exec_exc).__name__}",
@@ -283,6 +313,7 @@ def run_job(job):
                                desc["n_workers"], desc["cpu_count"], desc["export"], desc["save_path"], desc["clock"],
                                sorted(f["kind"] for f in desc["faults"])]),
             "clock_reads": st.get("clock_reads", 0), "wall": time.time() - t0,
+            "objective_fault_fired": st.get("objective_fault_fired", 0),
             "other_worker_count": st.get("probe_runs_with_other_worker_count", 0)}
 
 
@@ -328,6 +359,7 @@ def evidence(pid, tier, seed, jobs, results, good, wall):
         "cases_by_modes_shape": shapes, "optimizer_runs_observed": sum(r["runs"] for j, r in good),
         "files_created": sum(r["files"] for j, r in good),
         "probe_runs_with_other_worker_count": sum(r.get("other_worker_count", 0) for j, r in good),
+        "cases_with_a_failing_objective_evaluation": sum(r.get("objective_fault_fired", 0) for j, r in good),
         "simulated_time": {"events_logical_ticks": sum(r["nevents"] for j, r in good),
                            "clock_reads": sum(r["clock_reads"] for j, r in good)},
         "faults_fired": dict(fired, clock_plans=sum(1 for j, r in good if r["clock_reads"])), "probes": probes,
